@@ -42,10 +42,10 @@ namespace
 
     enum { V_PUSH, V_EMPLACE_BACK, V_INSERT, V_EMPLACE, V_INSERT_RANGE, V_ERASE_RANGE, V_ERASE_TAIL, V_POP, V_RESIZE, V_RESERVE, V_CLEAR,
            V_COPY_CTOR, V_MOVE_CTOR, V_COPY_ASSIGN, V_SELF_ASSIGN, V_MOVE_ASSIGN, V_COMPARE, V_AT, V_INSERT_SORTED, V_CTOR_N, V_CTOR_RANGE,
-           V_CTOR_ILIST, V_INSERT_INT, V_N };
+           V_CTOR_ILIST, V_INSERT_INT, V_PUSH_ALIAS, V_EMPLACE_BACK_ALIAS, V_INSERT_ALIAS, V_EMPLACE_ALIAS, V_N };
     const char *V_NAME[] = {"push_back", "emplace_back", "insert", "emplace", "insert_range", "erase(range)", "erase(newend)", "pop_back", "resize", "reserve", "clear",
                             "copy_ctor", "move_ctor", "copy_assign", "self_assign", "move_assign", "compare", "at", "insert_sorted", "ctor(n)", "ctor(range)",
-                            "ctor(ilist)", "insert(int pos)"};
+                            "ctor(ilist)", "insert(int pos)", "push_back(own element)", "emplace_back(own element)", "insert(own element)", "emplace(own element)"};
 
     template <class E> struct VecWorld : World
     {
@@ -66,7 +66,7 @@ namespace
                 int64_t k;
                 unsigned c = (unsigned)r.below(100);
                 if (c < 30) k = r.chance(1, 2) ? V_PUSH : V_EMPLACE_BACK;
-                else if (c < 50) k = r.pick<int64_t>({V_INSERT, V_EMPLACE, V_INSERT_RANGE, V_INSERT_INT});
+                else if (c < 50) k = r.pick<int64_t>({V_INSERT, V_EMPLACE, V_INSERT_RANGE, V_INSERT_INT, V_INSERT_ALIAS, V_EMPLACE_ALIAS, V_PUSH_ALIAS});
                 else if (c < 62) k = r.pick<int64_t>({V_ERASE_RANGE, V_ERASE_TAIL, V_POP});
                 else k = (int64_t)r.below(V_N);
                 p.ops.push_back({k, (int64_t)r.below(2), (int64_t)r.below(24), (int64_t)r.below(24), (int64_t)r.below(1000)});
@@ -162,6 +162,29 @@ namespace
                             it = x.emplace((typename Vec::const_iterator)(x.data() + pos), val);
                         mx.insert(mx.begin() + pos, val);
                         if (it != x.data() + pos) violate("C02/insert-result", "insert/emplace returned an iterator to position %td, expected %zu", it - x.data(), pos);
+                        break;
+                    }
+                    case V_PUSH_ALIAS:
+                    case V_EMPLACE_BACK_ALIAS:
+                    case V_INSERT_ALIAS:
+                    case V_EMPLACE_ALIAS:
+                    {
+                        // the argument is an element of the vector itself (std::vector guarantees this works)
+                        if (mx.empty()) break;
+                        size_t j = (size_t)mod(arg(o, 3), (int64_t)mx.size());
+                        size_t pos = (size_t)mod(arg(o, 2), (int64_t)mx.size() + 1);
+                        int v0 = mx[j];
+                        if (x.size() == x.capacity()) probe("alias_argument_with_reallocation");
+                        else probe("alias_argument_without_reallocation");
+                        if (k == V_PUSH_ALIAS) { x.push_back(x[j]); mx.push_back(v0); }
+                        else if (k == V_EMPLACE_BACK_ALIAS) { x.emplace_back(x[j]); mx.push_back(v0); }
+                        else
+                        {
+                            if (pos < mx.size()) mid_edit = true;
+                            if (k == V_INSERT_ALIAS) x.insert((typename Vec::const_iterator)(x.data() + pos), x[j]);
+                            else x.emplace((typename Vec::const_iterator)(x.data() + pos), x[j]);
+                            mx.insert(mx.begin() + pos, v0);
+                        }
                         break;
                     }
                     case V_INSERT_RANGE:
